@@ -513,6 +513,16 @@ func (ev *evaluator) project(p *cypher.Projection, s stream, final bool) (stream
 		produced = shuffledBy(ev, produced, func(pr projectedRow) row { return pr.out })
 	}
 
+	// for Options.Observe: the projected cells of a row, canonically
+	outKey := func(pr projectedRow) string {
+		cells := make([]Value, len(items))
+		for i, item := range items {
+			cells[i] = pr.out[item.name]
+		}
+		return rowKey(cells)
+	}
+	tiesAmongDifferingRows := false
+
 	if p.Order != nil && len(p.Order.Items) > 0 {
 		type keyed struct {
 			pr   projectedRow
@@ -549,6 +559,53 @@ func (ev *evaluator) project(p *cypher.Projection, s stream, final bool) (stream
 
 		for i := range rowsWithKeys {
 			produced[i] = rowsWithKeys[i].pr
+		}
+
+		for i := 1; i < len(rowsWithKeys) && !tiesAmongDifferingRows; i++ {
+			tied := true
+			for k := range p.Order.Items {
+				if orderCompare(rowsWithKeys[i-1].keys[k], rowsWithKeys[i].keys[k]) != 0 {
+					tied = false
+					break
+				}
+			}
+			if tied && outKey(rowsWithKeys[i-1].pr) != outKey(rowsWithKeys[i].pr) {
+				tiesAmongDifferingRows = true
+			}
+		}
+		if tiesAmongDifferingRows && ev.opts.Observe != nil {
+			ev.opts.Observe.OrderTies = true
+		}
+	}
+
+	if ev.opts.Observe != nil && (p.Skip != nil || p.Limit != nil) && len(produced) > 1 {
+		orderOpen := tiesAmongDifferingRows
+		if p.Order == nil || len(p.Order.Items) == 0 {
+			for _, pr := range produced[1:] {
+				if outKey(pr) != outKey(produced[0]) {
+					orderOpen = true
+					break
+				}
+			}
+		}
+		if orderOpen {
+			remaining, cut := int64(len(produced)), false
+			if p.Skip != nil {
+				if n, err := ev.rowCount("SKIP", p.Skip.Value); err == nil && n > 0 {
+					if n < remaining {
+						cut = true
+					}
+					remaining -= n
+				}
+			}
+			if p.Limit != nil && remaining > 0 {
+				if n, err := ev.rowCount("LIMIT", p.Limit.Value); err == nil && n < remaining && n > 0 {
+					cut = true
+				}
+			}
+			if cut {
+				ev.opts.Observe.ArbitraryWindow = true
+			}
 		}
 	}
 
